@@ -705,6 +705,44 @@ void World::exec_env_op(const Step& s)
         note("clock -> " + std::to_string(g_sim_clock));
         return;
     }
+    if (s.op == "obs_fault")
+    {
+        // faults inside OBSERVING calls: one statement of a full observation is refused (BUSY: the second party holds a
+        // lock; or a generic error).  The answers of such an observation are not judged - every getter is called under
+        // a guard - but no call may crash, abort or throw something that is not a std::exception (C15), and reading
+        // may not write (C16).
+        if (!db)
+            return;
+        Outcome clean = call(FaultSpec{}, [&] { (void)observe(); });
+        int n = clean.stmts;
+        if (n <= 0)
+            return;
+        Rng r(s.vseed ^ 0x0B5Full);
+        int rounds = 3 + (int)r.below(4);
+        const uint64_t w0 = g_disk.lib_writes + g_disk.lib_truncates + g_disk.lib_deletes;
+        const int64_t c0 = g_taps.total_changes();
+        int fired = 0;
+        for (int i = 0; i < rounds && !stop; ++i)
+        {
+            FaultSpec f;
+            f.kind = FK_STMT;
+            f.pos = (int64_t)r.below((uint64_t)n);
+            f.code = r.chance(3, 4) ? 5 : 1;
+            Outcome o = call(f, [&] { (void)observe(); });
+            fired += o.fault_fired ? 1 : 0;
+            if (tstate && tstate->lib && v2)
+            {
+                f.pos = (int64_t)r.below(40);
+                Outcome o2 = call(f, [&] { table_read_all_unguarded(); });
+                fired += o2.fault_fired ? 1 : 0;
+            }
+        }
+        if (g_disk.lib_writes + g_disk.lib_truncates + g_disk.lib_deletes != w0 || g_taps.total_changes() != c0)
+            report("C16", "C16|observe-under-fault|" + fam() + "|disk-write", "an observation during which one statement was refused wrote to the database");
+        note("obs_fault: " + std::to_string(rounds) + " observations of " + std::to_string(n) + " statements, " + std::to_string(fired) + " faults fired");
+        probes.hit("observation_faults_fired", (uint64_t)fired);
+        return;
+    }
     if (s.op == "reload")
     {
         if (!plan.cfg.on_disk)
@@ -890,7 +928,7 @@ void World::exec_step(const Step& s)
         exec_member_op(s);
         return l_done();
     }
-    if (s.op == "clock" || s.op == "reload")
+    if (s.op == "clock" || s.op == "reload" || s.op == "obs_fault")
     {
         exec_env_op(s);
         return l_done();
